@@ -70,6 +70,8 @@ contract(A + "_fcn", params=dict(x="list[val]"),
          ensures=[("internal-sign-scalar", "implies(scalar_case(), result == (F(self._task, x) if self._task.minmax == TaskType.MIN"
                                            " else -F(self._task, x)))"),
                   ("no-objective-lost", "implies(not scalar_case(), len(result) == nobj(self._task))"),
+                  ("internal-sign-list", "implies(not scalar_case(), all(result[k] == (Fk(self._task, x, k) if self._task.minmax == TaskType.MIN"
+                                         " else -Fk(self._task, x, k)) for k in range(nobj(self._task))))"),
                   ("pure", "heap_unchanged()")],
          properties=["C02", "C06", "C12"])
 
@@ -77,7 +79,9 @@ POS_CASES = [dict(position=p, __obj__=o) for p in ("None", "list[val]", "nd[val]
 VALID_TASK = ["self._task is not None",
               # ValidTask: weights are given exactly for list-valued objectives (a scalar objective with a weight vector
               # is rejected by pydantic when the agent is built - outside the valid tasks)
-              "(self._task.objective_weights is None) == scalar_case()"]
+              "(self._task.objective_weights is None) == scalar_case()",
+              # ... and the weight list still holds the weights the task was built with (ghost W0; C09 keeps it so)
+              "weights_are(self._task)"]
 
 contract(A + "_init_agent", params=dict(position="opt[list[val]]"), returns="Agent", cases=POS_CASES,
          requires=VALID_TASK + [
@@ -87,7 +91,7 @@ contract(A + "_init_agent", params=dict(position="opt[list[val]]"), returns="Age
          assigns=["rng"], fresh_result=True,
          ensures=[("fresh", "fresh(result) and fresh(result.position)"),
                   ("in-space", "Space(self._task, result.position)"),
-                  ("truthful-cost-and-fitness", "implies(scalar_case(), Valid(self._task, result))"),
+                  ("truthful-cost-and-fitness", "Valid(self._task, result)"),
                   ("pure", "heap_unchanged()")],
          properties=["C01", "C02", "C05", "C06", "C11"])
 
@@ -98,7 +102,7 @@ contract(A + "_init_agent_seeded", params=dict(seed="int"), returns="Agent", cas
          assigns=["rng"], fresh_result=True,
          ensures=[("fresh", "fresh(result) and fresh(result.position)"),
                   ("in-space", "Space(self._task, result.position)"),
-                  ("truthful-cost-and-fitness", "implies(scalar_case(), Valid(self._task, result))"),
+                  ("truthful-cost-and-fitness", "Valid(self._task, result)"),
                   ("own-stream", "seeded_with(seed)"),
                   ("pure", "heap_unchanged()")],
          properties=["C11", "C01"])
@@ -112,7 +116,7 @@ contract(A + "_generate_agents", params=dict(n_agents="int"), returns="list[Agen
                   ("workers-do-not-replay-one-another", "own_streams()"),
                   ("fresh", "fresh(result) and all(fresh(result[k]) for k in range(n_agents))"),
                   ("all-in-space", "all(Space(self._task, result[k].position) for k in range(n_agents))"),
-                  ("all-truthful", "implies(scalar_case(), all(Valid(self._task, result[k]) for k in range(n_agents)))"),
+                  ("all-truthful", "all(Valid(self._task, result[k]) for k in range(n_agents))"),
                   ("pure", "heap_unchanged()")],
          properties=["C01", "C02", "C10", "C11"])
 
@@ -123,7 +127,7 @@ contract(A + "_init_population", cases=OBJ_CASES,
          assigns=["self._population", "rng"],
          ensures=[("size", "len(self._population) == self._config.population_size"),
                   ("all-in-space", "all(Space(self._task, self._population[k].position) for k in range(len(self._population)))"),
-                  ("all-truthful", "implies(scalar_case(), all(Valid(self._task, self._population[k]) for k in range(len(self._population))))"),
+                  ("all-truthful", "all(Valid(self._task, self._population[k]) for k in range(len(self._population)))"),
                   ("born-in-this-run", "fresh(self._population) and all(fresh(self._population[k]) for k in range(len(self._population)))"),
                   ("pure", "heap_unchanged('self._population')")],
          properties=["C01", "C02", "C10", "C08"])
@@ -182,7 +186,7 @@ contract(A + "__error_check__", returns="tuple[float, float, bool]",
 # PopOK(self): every agent of the population is a valid agent of this run's task and the size clause of C10 holds.
 N = "self._config.population_size"
 POP_OK = ["all(Space(self._task, a.position) for a in self._population)",
-          "implies(scalar_case(), all(Valid(self._task, a) for a in self._population))",
+          "all(Valid(self._task, a) for a in self._population)",
           "1 <= len(self._population) <= " + N,
           "implies(fixed_size(self), len(self._population) == " + N + ")",
           "self._population is not self._errors and self._population is not self._error_diffs"]
@@ -205,7 +209,7 @@ contract(A + "optimization_step", requires=HOOK_REQ + POP_OK, assigns=["content(
 WMISMATCH = ("(len(task.objective_weights) if task.objective_weights is not None else 1)"
              " != (1 if scalar_case() else nobj(task))")
 GEN_OK = ("(all(Space(task, a.position) for a in {g}.agents)"
-          " and implies(scalar_case(), all(Reported(task, a) for a in {g}.agents))"
+          " and all(Reported(task, a) for a in {g}.agents)"
           " and 1 <= len({g}.agents) <= " + N +
           " and implies(fixed_size(self), len({g}.agents) == " + N + ")"
           " and {g}.agents is not self._errors and {g}.agents is not self._error_diffs)")
@@ -218,6 +222,7 @@ contract(A + "optimize", params=dict(task="Task", mode="opt[str]", workers="opt[
          cases=OBJ_CASES, locals=dict(evolution="list[Population]"), hints=["eager-inst"],
          requires=[
              "(task.objective_weights is None) == scalar_case()",                       # ValidTask (see _init_agent)
+             "weights_are(task)",
              "implies(task.seed is not None, 0 <= task.seed < 4294967296)",             # the documented numpy seed range
              "implies(self._config is not None, " + N + " >= 1 and self._config.max_cycles >= 1 and "
              + VALID_CFG[1][:-1] + "))",
@@ -233,6 +238,7 @@ contract(A + "optimize", params=dict(task="Task", mode="opt[str]", workers="opt[
          ] + [("book-" + str(i), b) for i, b in enumerate(book("(" + CC + " - 1)"))] + [
              ("no-earlier-stop", "all(not Stop(self, k, self._errors) for k in range(1, " + CC + "))"),
              ("within-budget", CC + " <= self._config.max_cycles"),
+             ("weights-kept", "weights_are(task)"),
              ("rates-are-abs-1-minus-mean-fitness",
               "all(self._errors[k - 1] == abs(1 - mean([a.fitness for a in evolution[k].agents])) for k in range(1, " + CC + "))"),
              ("history-ok", "all(" + GEN_OK.format(g="evolution[g]") + " for g in range(" + CC + "))"),
@@ -251,9 +257,6 @@ contract(A + "optimize", params=dict(task="Task", mode="opt[str]", workers="opt[
              ("never-earlier", "all(not Stop(self, k, result.rates) for k in range(1, len(result.rates)))"),
              ("rates", "all(result.rates[k - 1] == abs(1 - mean([a.fitness for a in result.evolution[k].agents]))"
                        " for k in range(1, len(result.rates) + 1))"),
-             # rates[k-1] = |1 - mean fitness of generation k|: carried by __error_check__ (rate of the live population of
-             # cycle k) and Population.__init__ (the snapshot keeps every fitness); the link for *later* cycles rests on
-             # the immutability of recorded generations (history-ok) and is monitored at run time (BND), not re-proved here.
              ("every-generation-ok", "all(" + GEN_OK.format(g="result.evolution[g]") + " for g in range(len(result.evolution)))"),
              ("best-is-a-member-of-the-last-generation",
               "result.best_solution is not None and 0 <= best_index(0) < len(result.evolution[len(result.rates)].agents) and"
